@@ -184,3 +184,59 @@ Lemma gen_spec_quat_mat_ok u :
                     gen_spec_quat_mat_4; gen_spec_quat_mat_5; gen_spec_quat_mat_6; gen_spec_quat_mat_7;
                     gen_spec_quat_mat_8] = mat_list (quat_mat u).
 Proof. destruct u as [x y z w]. tie. Qed.
+
+(* ---------------------------------------------------------------- growth round: scale, matrix_vec, constructors,
+   solver wrappers, LighthouseBsVectors list helpers *)
+From CF Require Import C15.Heap.
+
+Definition gen_pose_scale := [gen_pose_scale_0; gen_pose_scale_1; gen_pose_scale_2; gen_pose_scale_3; gen_pose_scale_4; gen_pose_scale_5; gen_pose_scale_6; gen_pose_scale_7; gen_pose_scale_8; gen_pose_scale_9; gen_pose_scale_10; gen_pose_scale_11].
+Definition gen_pose_matrix_vec := [gen_pose_matrix_vec_0; gen_pose_matrix_vec_1; gen_pose_matrix_vec_2; gen_pose_matrix_vec_3; gen_pose_matrix_vec_4; gen_pose_matrix_vec_5; gen_pose_matrix_vec_6; gen_pose_matrix_vec_7; gen_pose_matrix_vec_8; gen_pose_matrix_vec_9; gen_pose_matrix_vec_10; gen_pose_matrix_vec_11].
+Definition gen_pose_from_rot_vec := [gen_pose_from_rot_vec_0; gen_pose_from_rot_vec_1; gen_pose_from_rot_vec_2; gen_pose_from_rot_vec_3; gen_pose_from_rot_vec_4; gen_pose_from_rot_vec_5; gen_pose_from_rot_vec_6; gen_pose_from_rot_vec_7; gen_pose_from_rot_vec_8; gen_pose_from_rot_vec_9; gen_pose_from_rot_vec_10; gen_pose_from_rot_vec_11].
+Definition gen_pose_from_quat := [gen_pose_from_quat_0; gen_pose_from_quat_1; gen_pose_from_quat_2; gen_pose_from_quat_3; gen_pose_from_quat_4; gen_pose_from_quat_5; gen_pose_from_quat_6; gen_pose_from_quat_7; gen_pose_from_quat_8; gen_pose_from_quat_9; gen_pose_from_quat_10; gen_pose_from_quat_11].
+Definition gen_pose_from_rot_vec_default := [gen_pose_from_rot_vec_default_0; gen_pose_from_rot_vec_default_1; gen_pose_from_rot_vec_default_2; gen_pose_from_rot_vec_default_3; gen_pose_from_rot_vec_default_4; gen_pose_from_rot_vec_default_5; gen_pose_from_rot_vec_default_6; gen_pose_from_rot_vec_default_7; gen_pose_from_rot_vec_default_8; gen_pose_from_rot_vec_default_9; gen_pose_from_rot_vec_default_10; gen_pose_from_rot_vec_default_11].
+Definition gen_pose_from_quat_default := [gen_pose_from_quat_default_0; gen_pose_from_quat_default_1; gen_pose_from_quat_default_2; gen_pose_from_quat_default_3; gen_pose_from_quat_default_4; gen_pose_from_quat_default_5; gen_pose_from_quat_default_6; gen_pose_from_quat_default_7; gen_pose_from_quat_default_8; gen_pose_from_quat_default_9; gen_pose_from_quat_default_10; gen_pose_from_quat_default_11].
+Definition gen_solver_params_to_pose := [gen_solver_params_to_pose_0; gen_solver_params_to_pose_1; gen_solver_params_to_pose_2; gen_solver_params_to_pose_3; gen_solver_params_to_pose_4; gen_solver_params_to_pose_5; gen_solver_params_to_pose_6; gen_solver_params_to_pose_7; gen_solver_params_to_pose_8; gen_solver_params_to_pose_9; gen_solver_params_to_pose_10; gen_solver_params_to_pose_11].
+
+(* Pose.scale(k) changes the object into pscale k P (the in-place operation of the heap model C15/Heap.v) *)
+Lemma gen_pose_scale_ok P k : ev (pose_list P ++ [k]) gen_pose_scale = pose_list (pscale k P).
+Proof. destruct P as [[a b c d e f g h i] [x y z]]. tie. Qed.
+
+Lemma gen_pose_matrix_vec_ok P : ev (pose_list P) gen_pose_matrix_vec = pose_list P.
+Proof. destruct P as [[a b c d e f g h i] [x y z]]. tie. Qed.
+
+(* Pose.from_rot_vec / Pose.from_quat, with scipy's Rotation constructors read as rodrigues / quat_mat o normalise *)
+Lemma gen_pose_from_rot_vec_ok r t :
+  ev (vec_list r ++ vec_list t) gen_pose_from_rot_vec = pose_list (pose_from_rotvec rodrigues r t).
+Proof. destruct r as [a b c], t as [x y z]. tie. Qed.
+
+Lemma gen_pose_from_quat_ok u t :
+  ev (quat_list u ++ vec_list t) gen_pose_from_quat = pose_list (pose_from_quat u t).
+Proof. destruct u as [a b c d], t as [x y z]. tie. Qed.
+
+Lemma gen_pose_ctor_defaults_ok :
+  ev [] gen_pose_from_rot_vec_default = pose_list (pose_from_rotvec rodrigues vzero vzero) /\
+  ev [] gen_pose_from_quat_default = pose_list (pose_from_quat (Q4 0 0 0 1) vzero).
+Proof. split; tie. Qed.
+
+Lemma gen_solver_params_to_pose_ok r t :
+  ev (vec_list r ++ vec_list t) gen_solver_params_to_pose = pose_list (pose_from_rotvec rodrigues r t).
+Proof. destruct r as [a b c], t as [x y z]. tie. Qed.
+
+Lemma gen_solver_poses_to_angle_pairs_ok bs_r bs_t cf_r cf_t s :
+  ev (vec_list bs_r ++ vec_list bs_t ++ vec_list cf_r ++ vec_list cf_t ++ vec_list s)
+     [gen_solver_poses_to_angle_pairs_0; gen_solver_poses_to_angle_pairs_1]
+  = [fst (solver_angle_pair bs_r bs_t cf_r cf_t s); snd (solver_angle_pair bs_r bs_t cf_r cf_t s)].
+Proof.
+  destruct bs_r as [a0 a1 a2], bs_t as [a3 a4 a5], cf_r as [b0 b1 b2], cf_t as [b3 b4 b5], s as [s0 s1 s2]. tie.
+Qed.
+
+(* LighthouseBsVectors: one row of projection_pair_list / two consecutive entries of angle_list, per vector *)
+Lemma gen_bsvs_lists_ok h v :
+  ev [h; v] [gen_bsvs_projection_pair_row_0; gen_bsvs_projection_pair_row_1] = [fst (projection h v); snd (projection h v)] /\
+  ev [h; v] [gen_bsvs_angle_list_row_0; gen_bsvs_angle_list_row_1] = [h; v].
+Proof. split; tie. Qed.
+
+Lemma gen_spec_quat_to_rotvec_ok u :
+  ev (quat_list u) [gen_spec_quat_to_rotvec_0; gen_spec_quat_to_rotvec_1; gen_spec_quat_to_rotvec_2]
+  = vec_list (quat_to_rotvec u).
+Proof. destruct u as [x y z w]. tie. Qed.
